@@ -128,7 +128,8 @@ def orphansOkB (st : State) (labels : List Nat) (n : Net) (fs : List Final) : Bo
      | none => true))
 
 inductive AVerdict where
-  | ok (st : State) (reduced : Nat) (finals : Nat)     -- #groups that needed a reduction, #final groups
+  | ok (st : State) (reduced : Nat) (finals : Nat) (capped : Bool)
+      -- #groups that needed a reduction, #final groups; `capped`: only C01 validity was judged
   | expectOversize
   | capped
   | bad (reason : String)
@@ -139,9 +140,17 @@ def stepCheckA (a : ACfg) (cfg : Cfg) (st : State) (t : Int) (dsts : List Pos)
   let nets := stepNets cfg st t dsts
   -- `numba_link` (strategies numba / hybrid) raises SubnetOversizeException for a source with more
   -- than 9 forward candidates (null candidate included); adaptive_link_wrap treats that like an
-  -- oversize group.  Such steps are outside this monitor's domain (verdict `capped`, no claim).
+  -- oversize group.  Such steps, and steps beyond the neighbour cap, are outside the adaptive
+  -- claims: a raise gets verdict `capped`; returned labels are still judged for C01 validity.
   if cappedB cfg st t dsts ||
-      (cfg.numbaCap && nets.any (fun n => n.srcs.any (fun s => decide (s.2.length ≥ 9)))) then .capped else
+      (cfg.numbaCap && nets.any (fun n => n.srcs.any (fun s => decide (s.2.length ≥ 9)))) then
+    (match labels? with
+     | none => .capped
+     | some labels =>
+       match validWhy cfg st t dsts labels with
+       | some why => .bad why
+       | none => .ok (nextState cfg st t dsts labels) 0 0 true)
+  else
   let plans := nets.map (fun n => (n, plan a cfg.B 64 0 n))
   let raises := plans.any (fun x => x.2.isNone)
   match labels? with
@@ -160,7 +169,7 @@ def stepCheckA (a : ACfg) (cfg : Cfg) (st : State) (t : Int) (dsts : List Pos)
     | some fs => fs.any (fun f => f.k > 0) || fs.isEmpty
     | none => false)).length
   let finals := (plans.map (fun x => match x.2 with | some fs => fs.length | none => 0)).foldl (· + ·) 0
-  .ok (nextState cfg st t dsts labels) reduced finals
+  .ok (nextState cfg st t dsts labels) reduced finals false
 
 structure ARun where
   verdict : String
@@ -168,6 +177,7 @@ structure ARun where
   reason : String
   reduced : Nat
   finals : Nat
+  cappedSteps : Nat := 0
 
 def runCheckA (a : ACfg) (cfg : Cfg) (levels : List Level) : ARun :=
   match levels with
@@ -178,16 +188,16 @@ def runCheckA (a : ACfg) (cfg : Cfg) (levels : List Level) : ARun :=
     | some lab0 =>
     match initCheck l0.t l0.dsts lab0 with
     | .ok st0 _ _ _ _ =>
-      let rec loop (st : State) (k : Nat) (ls : List Level) (r f : Nat) : ARun :=
+      let rec loop (st : State) (k : Nat) (ls : List Level) (r f cp : Nat) : ARun :=
         match ls with
-        | [] => { verdict := "ok", step := k, reason := "", reduced := r, finals := f }
+        | [] => { verdict := "ok", step := k, reason := "", reduced := r, finals := f, cappedSteps := cp }
         | l :: ls' =>
           match stepCheckA a cfg st l.t l.dsts l.labels with
-          | .ok st' r' f' => loop st' (k + 1) ls' (r + r') (f + f')
+          | .ok st' r' f' c' => loop st' (k + 1) ls' (r + r') (f + f') (cp + (if c' then 1 else 0))
           | .expectOversize => { verdict := "expect-oversize", step := k, reason := "", reduced := r, finals := f }
           | .capped => { verdict := "capped", step := k, reason := "", reduced := r, finals := f }
           | .bad why => { verdict := "bad", step := k, reason := why, reduced := r, finals := f }
-      loop st0 1 rest 0 0
+      loop st0 1 rest 0 0 0
     | .bad why => { verdict := "bad", step := 0, reason := why, reduced := 0, finals := 0 }
     | _ => { verdict := "bad", step := 0, reason := "internal", reduced := 0, finals := 0 }
 
